@@ -1573,6 +1573,10 @@ func cmdC17Script(seed uint64, n int, dir string) {
 			c17Evolve(r, st, seed, c)
 			continue
 		}
+		if x < 12 {
+			c17Kept(r, st, seed, c)
+			continue
+		}
 		fresh := x < 35
 		pk := genC17Pkg(r, true, fresh)
 		gen := newC17Sess(pk)
@@ -1621,4 +1625,122 @@ func cmdC17Script(seed uint64, n int, dir string) {
 		}
 	}
 	st.write(dir + "/C17_script_stats.json")
+}
+
+// c17Kept: package-level variables declared WITHOUT initialiser, of every kind of declared type (int, string,
+// float64, bool, slice, map, pointer, func, `any`, a declared interface type), are given values of various
+// dynamic types by a script function, the package is reloaded (unchanged source or the next version), and the
+// values are read back: every one must be what it was (a variable WITH initialiser is reset).  Native oracle:
+// the expected text is computed here.
+func c17Kept(r *rng, st *stats, seed uint64, c int) {
+	type kv struct{ decl, set, show, want string }
+	pool := []kv{
+		{"var ki int", "ki = 41", "ki", "41"},
+		{"var ks string", "ks = \"héé\"", "ks", "héé"},
+		{"var kf float64", "kf = 2.5", "kf", "2.5"},
+		{"var kb bool", "kb = true", "kb", "true"},
+		{"var ku uint8", "ku = 200", "ku", "200"},
+		{"var kl []int", "kl = []int{4, 5}", "kl[1]", "5"},
+		{"var km map[string]int", "km = map[string]int{\"a\": 9}", "km[\"a\"]", "9"},
+		{"var kp *T", "kp = &T{id: 77}", "kp.id", "77"},
+		{"var kh func(int) int", "kh = f", "kh(1) > 0", "true"},
+		{"var ka any", "ka = 7", "ka", "7"},
+		{"var ka2 any", "ka2 = \"s\"", "ka2", "s"},
+		{"var ka3 any", "ka3 = 1.5", "ka3", "1.5"},
+		{"var ka4 any", "ka4 = &T{id: 5}", "ka4 != nil", "true"},
+		{"var ke I", "ke = &T{id: 12}", "ke.M(3)", "15"},
+		{"var ke2 I", "ke2 = U{w: 2}", "ke2.M(3)", "6"},
+		{"var ky interface{}", "ky = true", "ky", "true"},
+	}
+	var vars []kv
+	for _, x := range pool {
+		if r.chance(60) {
+			vars = append(vars, x)
+		}
+	}
+	if len(vars) == 0 {
+		vars = pool[9:11]
+	}
+	src := func(v int) string {
+		var sb strings.Builder
+		sb.WriteString("package p\n\nimport \"fmt\"\n\n")
+		for _, x := range vars {
+			sb.WriteString(x.decl + "\n")
+		}
+		sb.WriteString("var reset int = 3\n\ntype I interface {\n\tM(a int) int\n}\n\ntype T struct {\n\tid int\n}\n\ntype U struct {\n\tw int\n}\n\n")
+		fmt.Fprintf(&sb, "func f(a int) int {\n\treturn a + %d\n}\n\nfunc (t *T) M(a int) int {\n\treturn t.id + a\n}\n\nfunc (u U) M(a int) int {\n\treturn u.w * a\n}\n\n", v)
+		sb.WriteString("func Set() {\n\treset = 8\n")
+		for _, x := range vars {
+			sb.WriteString("\t" + x.set + "\n")
+		}
+		sb.WriteString("}\n\nfunc Show() {\n\tfmt.Println(reset)\n")
+		for _, x := range vars {
+			sb.WriteString("\tfmt.Println(" + x.show + ")\n")
+		}
+		sb.WriteString("}\n")
+		return sb.String()
+	}
+	var out bytes.Buffer
+	vm := g.New(g.WithStdout(&out))
+	fs := fstest.MapFS{"p/a.go": &fstest.MapFile{Data: []byte(src(1))}}
+	hist := []string{"Load(v1)"}
+	report := func(check, exp, got string) {
+		st.mismatchG("c17-kept/"+check, map[string]any{"kind": "c17-kept", "check": check, "expected": exp, "got": got,
+			"minimal_history": append([]string{}, hist...), "sources": map[string]string{"v1": src(1), "v2": src(2)}, "seed": seed, "case": c})
+	}
+	step := func(what string, f func() error) bool {
+		hist = append(hist, what)
+		if err := c17Guard(f); err != nil {
+			report("error", "no error", what+": "+c17ErrStr(err))
+			return false
+		}
+		return true
+	}
+	if !step("Load(v1)", func() error { return vm.Load(fs, "p") }) {
+		return
+	}
+	hist = hist[1:]
+	if !step("Set()", func() error { _, err := vm.Call("p.Set", 0); return err }) {
+		return
+	}
+	reloads := 1 + r.intn(3)
+	for k := 0; k < reloads; k++ {
+		v := 1
+		if r.chance(50) {
+			v = 2
+		}
+		fs["p/a.go"].Data = []byte(src(v))
+		if !step(fmt.Sprintf("Load(v%d)", v), func() error { return vm.Load(fs, "p") }) {
+			return
+		}
+	}
+	out.Reset()
+	if !step("Show()", func() error { _, err := vm.Call("p.Show", 0); return err }) {
+		return
+	}
+	want := "3\n"
+	for _, x := range vars {
+		want += x.want + "\n"
+	}
+	st.Histogram["kept:variables"] += len(vars)
+	for _, x := range vars {
+		st.Histogram["kept:"+strings.Join(strings.Fields(x.decl)[2:], " ")+" <- "+strings.SplitN(x.set, " = ", 2)[1]]++
+	}
+	if out.String() != want {
+		// name the first variable that differs
+		gl, wl := strings.Split(out.String(), "\n"), strings.Split(want, "\n")
+		which := "output"
+		for i := range wl {
+			if i >= len(gl) || gl[i] != wl[i] {
+				if i == 0 {
+					which = "var reset int = 3 (must be reset to its initialiser)"
+				} else if i-1 < len(vars) {
+					which = vars[i-1].decl + " after `" + vars[i-1].set + "` (must keep its value)"
+				}
+				break
+			}
+		}
+		report("value", which+": "+strconv.Quote(want), strconv.Quote(out.String()))
+	}
+	st.add("kept", fmt.Sprintf("kept vars=%d reloads=%d", len(vars), reloads))
 }
